@@ -56,7 +56,7 @@ func main() {
 	run := ev.Start("C14", "model_checking")
 	keys := []string{"a", "b", "c"}
 	F := 2
-	budget := 150 * time.Second
+	budget := 240 * time.Second
 	if run.Thorough() {
 		F = 3
 		budget = 35 * time.Minute
@@ -329,7 +329,7 @@ func main() {
 		Bounds: map[string]any{"faults": F, "scan_limits": []int{1, 2, 3}, "keys": keys, "range_task": extra},
 		Rule: "A: two victim transactions (shapes x lock modes x commit protocols) crashed at every combination of seam events within the fault budget (each crash and each split costs one), then tikv.ResolveLocksForRange as an actor with scan limit 1..3 and an optional region split before any ScanLock/ResolveLock RPC; after a successful pass: no lock <= safe point anywhere, versions committed before are unchanged, every victim all-or-nothing with one commit ts and consistent with its acknowledgement. " +
 			"A2: one dead 3-key transaction (crash at any seam event) and GC as the explored recovery actor with one preemption inside the pass (the answers to the concurrent status checks of its async-commit recovery in either order); " +
-			"B: rangetask.Runner.RunOnRange with a recording handler over all layouts of <= 3 split keys x all (start,end) incl. unbounded x concurrency {1,3} x regions-per-task {1,2} x failing sub-range index; C: DeleteRangeTask over the same grid against a map model; C2: DeleteRangeTask on 8 keys over all layouts x ranges x concurrency {1,3} with one (thorough: two) region split(s) injected at the RPC seam right before the first DeleteRange request whose range strictly contains the split key is delivered (the store answers EpochNotMatch and the task must retry that piece), exactly the keys of [start,end) removed; D: snapshot Get/BatchGet/Iter/IterReverse at ts in {sp-1, sp, sp+1} after UpdateTxnSafePointCache(sp); D2: the same four read paths at a ts below a safe point that the store learns (with and without the MVCC GC actually running) between the call and the delivery of the first read RPC: must be refused. distinct_nontrivial = distinct (victim outcomes, crash/split positions) classes",
+			"B: rangetask.Runner.RunOnRange with a recording handler over all layouts of <= 3 split keys x all (start,end) incl. unbounded x concurrency {1,3} x regions-per-task {1,2} x failing sub-range index, and x the handler call during which the caller cancels its context (a nil result still has to mean full coverage); C: DeleteRangeTask over the same grid against a map model; C2: DeleteRangeTask on 8 keys over all layouts x ranges x concurrency {1,3} with one (thorough: two) region split(s) injected at the RPC seam right before the first DeleteRange request whose range strictly contains the split key is delivered (the store answers EpochNotMatch and the task must retry that piece), exactly the keys of [start,end) removed; D: snapshot Get/BatchGet/Iter/IterReverse at ts in {sp-1, sp, sp+1} after UpdateTxnSafePointCache(sp); D2: the same four read paths at a ts below a safe point that the store learns (with and without the MVCC GC actually running) between the call and the delivery of the first read RPC: must be refused. distinct_nontrivial = distinct (victim outcomes, crash/split positions) classes",
 		Assumptions: []string{
 			"GC starts only after every transaction below the safe point has ended or crashed (the GC contract)",
 			"a GC pass that reports an error is not judged (the property speaks about a successful GC)",
@@ -369,6 +369,10 @@ func rangeTaskPart(run *ev.Run, extra map[string]any) {
 							cases++
 							rangeTaskCase(run, st, gridCase{Part: "B", Layout: lo, S: s, E: e, Conc: conc, RPT: rpt, Fail: fail})
 						}
+						for cancel := 1; cancel <= 3; cancel++ {
+							cases++
+							rangeTaskCase(run, st, gridCase{Part: "B", Layout: lo, S: s, E: e, Conc: conc, RPT: rpt, Fail: -1, Cancel: cancel})
+						}
 					}
 				}
 			}
@@ -401,6 +405,9 @@ type gridCase struct {
 	RPT    int      `json:"regions_per_task,omitempty"`
 	Fail   int      `json:"failing_sub_range"`
 	Plan   []string `json:"split_before_delivery,omitempty"`
+	// Cancel: the caller's context is cancelled during the handler call with this index (which itself
+	// succeeds); 0 = never (indices are 1-based here so that old replay files mean "never")
+	Cancel int `json:"cancel_at_handler_call,omitempty"`
 }
 
 func rangeTaskCase(run *ev.Run, st *tikv.KVStore, gc gridCase) {
@@ -408,11 +415,16 @@ func rangeTaskCase(run *ev.Run, st *tikv.KVStore, gc gridCase) {
 	var mu sync.Mutex
 	var got []kv.KeyRange
 	n := 0
+	callerCtx, cancelCaller := context.WithCancel(context.Background())
+	defer cancelCaller()
 	h := func(ctx context.Context, r kv.KeyRange) (rangetask.TaskStat, error) {
 		mu.Lock()
 		defer mu.Unlock()
 		i := n
 		n++
+		if gc.Cancel > 0 && i == gc.Cancel-1 {
+			cancelCaller() // the caller gives up; this sub-range itself still succeeds
+		}
 		if i == fail {
 			return rangetask.TaskStat{FailedRegions: 1}, errors.New("injected sub-range failure")
 		}
@@ -421,10 +433,16 @@ func rangeTaskCase(run *ev.Run, st *tikv.KVStore, gc gridCase) {
 	}
 	r := rangetask.NewRangeTaskRunner("verif", st, conc, h)
 	r.SetRegionsPerTask(rpt)
-	err := r.RunOnRange(context.Background(), []byte(s), []byte(e))
-	desc := fmt.Sprintf("layout=%v range=[%q,%q) concurrency=%d regionsPerTask=%d fail=%d", lo, s, e, conc, rpt, fail)
+	err := r.RunOnRange(callerCtx, []byte(s), []byte(e))
+	desc := fmt.Sprintf("layout=%v range=[%q,%q) concurrency=%d regionsPerTask=%d fail=%d cancel-at-call=%d", lo, s, e, conc, rpt, fail, gc.Cancel)
 	failed := fail >= 0 && fail < n
-	if failed != (err != nil) {
+	if gc.Cancel > 0 {
+		// a cancelled run may report the cancellation or - if everything had been handed out already -
+		// success; what it may not do is report success without having covered the range
+		if err != nil {
+			return
+		}
+	} else if failed != (err != nil) {
 		run.Violation("rangetask:failure-not-reported", fmt.Sprintf("%s: handler failed=%v but RunOnRange returned %v", desc, failed, err), gc)
 	}
 	if failed {
